@@ -344,6 +344,24 @@ func TestC09(t *testing.T) {
 		return
 	}
 	ev.Check(t, "c09_source", ev.N(2400, 40000), c09Gen, c09Run)
+	// a choice that never varies with the source bytes is not derived from them:
+	// in long passphrases every position is sometimes capitalised and sometimes
+	// not, and every word occurs at every position (the support check of C04,
+	// false-alarm bound 1e-12; lengths beyond 64 words included)
+	ev.Check(t, "c09_choices_vary", ev.N(16, 160), func(t *rapid.T) supWL {
+		w := gen.WLSpec{Words: gen.WordList(t, gen.WordListOpts{Min: 2, Max: 4, AllCapable: true}),
+			Length: rapid.IntRange(50, 140).Draw(t, "long_length"),
+			Scheme: rapid.SampledFrom([]string{"one", "random"}).Draw(t, "scheme"),
+			Sep:    gen.SepSpec{Kind: "const", Const: rapid.SampledFrom([]string{"", "-"}).Draw(t, "sep")}}
+		return supWL{W: w, Key: rapid.Uint64().Draw(t, "key")}
+	}, func(c supWL) error {
+		err := wlSupport(c)
+		if err == nil {
+			ev.Class("choices_vary_checked")
+			ev.NonTrivial(fmt.Sprintf("vary|%+v", c.W))
+		}
+		return err
+	})
 	ev.Check(t, "c09_concurrent_accounting", ev.N(32, 320), func(t *rapid.T) c09Conc {
 		return c09Conc{Key: rapid.Uint64().Draw(t, "key"), G: rapid.IntRange(2, 12).Draw(t, "g"), L: rapid.IntRange(1, 5).Draw(t, "l"), I: rapid.IntRange(20, 150).Draw(t, "i")}
 	}, c09ConcRun)
